@@ -361,16 +361,38 @@ def logging_middleware(next_, root, ctx, info, **args):
     return r
 
 
+class LazyList:
+    """a lazy iterable a resolver may return for a list field: yields `k` items, then raises ResolverError mid-iteration"""
+
+    def __init__(self, items, k, fire):
+        self.items, self.k, self.fire = items, k, fire
+
+    def __iter__(self):
+        for x in self.items[:self.k]:
+            yield x
+        self.fire("lazy iterable failed")
+
+
+class RaiseOnSerialize:
+    """a value of a custom scalar whose serialiser raises ResolverError"""
+
+    def __init__(self, fire):
+        self.fire = fire
+
+
 class World:
     """Deterministic resolver outcomes: a function of (seed, response path)."""
 
-    def __init__(self, seed, schema, p_raise=0.1, p_null=0.15, p_null_nn=0.08, nonfinite=False, odd_scalars=True, min_items=0):
+    def __init__(self, seed, schema, p_raise=0.1, p_null=0.15, p_null_nn=0.08, nonfinite=False, odd_scalars=True, min_items=0,
+                 p_complete=0.0):
         self.seed = seed
         self.schema = schema
         self.p_raise, self.p_null, self.p_null_nn = p_raise, p_null, p_null_nn
         self.nonfinite = nonfinite
         self.odd = odd_scalars
         self.min_items = min_items
+        self.p_complete = p_complete
+        self.completion_raised = set()   # field paths whose value raised ResolverError while being COMPLETED
         self.calls = []          # [(path tuple, field type, outcome)]
         self.injected_nonfinite = False
         self.shared = {}         # shared ResolverError instances of this request
@@ -429,7 +451,42 @@ class World:
             # (to_dict/str/repr) by the resolver itself before it is raised
             cls = rng.choice([0, 1, 2, 2, 3, 4, 4, 5])
             return ("raised", msg, EXT_FACTORIES[idx](), cls, idx)
-        return ("value", self.value_of(ftype, rng))
+        v = self.value_of(ftype, rng)
+        if self.p_complete and rng.random() < self.p_complete:
+            v = self.inject(v, ftype, tuple(path), rng)
+        return ("value", v)
+
+    def inject(self, v, t, path, rng):
+        """make the completion of this field's value raise ResolverError: in `resolve_type` (abstract object), in the
+        middle of the iteration (list), in the serialiser (custom scalar); at the value itself or at one list item"""
+        from py_gql.exc import ResolverError
+        from py_gql.schema import ListType, NonNullType, ScalarType, InterfaceType, UnionType, SPECIFIED_SCALAR_TYPES
+        while isinstance(t, NonNullType):
+            t = t.type
+        ext = EXT_FACTORIES[rng.randrange(len(EXT_FACTORIES))]
+
+        def fire(msg):
+            self.completion_raised.add(path)
+            e = ext()
+            raise ResolverError(msg) if e is None else ResolverError(msg, extensions=e)
+        if v is None:
+            return v
+        if isinstance(t, ListType) and isinstance(v, list):
+            it = t.type
+            while isinstance(it, NonNullType):
+                it = it.type
+            r = rng.random()
+            if r < 0.5 or not v or isinstance(it, ListType):
+                return LazyList(v, rng.randint(0, len(v)), fire)
+            i = rng.randrange(len(v))
+            v = list(v)
+            v[i] = self.inject(v[i], it, path, rng)
+            return v
+        if isinstance(t, (InterfaceType, UnionType)) and isinstance(v, dict):
+            return dict(v, __raise__=fire)
+        if isinstance(t, ScalarType) and t not in SPECIFIED_SCALAR_TYPES:
+            return RaiseOnSerialize(fire)
+        return v
 
     def run(self, info, ftype):
         """called by the installed resolvers: record and realise the outcome for info.path"""
